@@ -214,6 +214,17 @@ Definition c03_core (i : val) : bool :=
 Definition holds_joe_c03 (i o : val) : bool := c03_core i.
 
 (* ---- C17 -------------------------------------------------------------------- *)
+Definition is_rep_panic (e : val) : bool :=
+  (Nat.eqb (code e) 40 || Nat.eqb (code e) 32) && Nat.eqb (a2 e) 98.
+
+(* once the replayer has panicked Joe goes on as if none were configured: nobody is turned away any more
+   (loop.reject exists only for an error Replay returned), and every subscription the loop takes from then
+   on is registered - what it then receives is the C03 clause *)
+Definition after_panic_ok (complete : bool) (evs : list val) : bool :=
+  let late := after is_rep_panic evs in
+  negb (has_code 33 late)
+  && (negb complete || forallb (fun e => if Nat.eqb (code e) 31 then has_ev 34 (a1 e) late else true) late).
+
 Definition holds_joe_c17 (i o : val) : bool :=
   let evs := events_of i in
   let complete := Nat.eqb (status_of i) 0 in
@@ -238,8 +249,9 @@ Definition holds_joe_c17 (i o : val) : bool :=
                        else if Nat.eqb (code e) 32 && Nat.eqb (a2 e) 98
                        then (negb complete || has_ev 34 (a1 e) evs)
                        else true) evs
-  && negb (has_code 40 (after (fun e => (Nat.eqb (code e) 40 || Nat.eqb (code e) 32) && Nat.eqb (a2 e) 98) evs))
-  && negb (has_code 41 (after (fun e => (Nat.eqb (code e) 40 || Nat.eqb (code e) 32) && Nat.eqb (a2 e) 98) evs)).
+  && negb (has_code 40 (after is_rep_panic evs))
+  && negb (has_code 41 (after is_rep_panic evs))
+  && after_panic_ok complete evs.
 
 (* ---- C04 -------------------------------------------------------------------- *)
 Definition opt_bytes_eqb (a b : option bytes) : bool :=
@@ -267,7 +279,8 @@ Definition replay_ok (i : val) (e41 : val) : bool :=
   let H := put_hist j evs in
   (* 1: the last cap accepted events; 2: all of them; 3: a ValidReplayer (TTL 1000 s) whose clock jumps +600 s right after
      the m-th accepted Put and +500 s right after the (m+k)-th, cap = 100 m + k: once m+k events are accepted the first m are
-     expired for every later Replay, before that none is *)
+     expired for every later Replay, before that none is (whether they have been collected yet - by the next Put or
+     by the application's own GC() call, which some scenarios make right after the second jump - changes nothing) *)
   let B := match kind with
            | 1 => lastn cap H
            | 2 => H
